@@ -102,6 +102,53 @@ def check_memory(chk, prog, env, model, tier):
     chk.coverage['verify_paths'] = paths
 
 
+def check_private_copy(chk, prog, env, model):
+    """jwt_parse works on a private copy of the token: allocation size, copy length and strlen(token)+1 are the same term,
+    the copy source is the caller's token and the destination the fresh buffer"""
+    from interp import linform
+    unit = 'libjwt/jwt-verify.c'
+    prog.func(unit, 'jwt_parse')
+    tok = Term(('token',), ptr=True)
+    seen = {'alloc': [], 'copy': []}
+
+    class R(Rule):
+        alloc_may_fail = False
+
+        def on_call(self, it, st, name, args, node):
+            if name == 'jwt_malloc' and it.frames and it.frames[-1] == 'jwt_parse':
+                seen['alloc'].append((args[0], node_loc(node)))
+            if name in ('memcpy', 'strcpy', 'strncpy', 'memmove') and it.frames and it.frames[-1] == 'jwt_parse':
+                seen['copy'].append((name, list(args), node_loc(node)))
+    it = Interp(prog, unit, model=model, rule=R(), hooks=H.std_hooks(env))
+    st = State()
+    jwt = ('obj', 'jwt')
+    st.zero.add(jwt)
+    it.run('jwt_parse', [Ref(jwt), tok, Ref(('obj', 'plen'))], st)
+    n = 0
+    bad = 0
+    want = ({('term', ('pure', 'strlen', vkey(tok))): 1}, 1)
+    if not seen['alloc'] or not seen['copy']:
+        raise AnalysisBroken('jwt_parse no longer allocates and copies the token (private-copy rule has no instance)')
+    for size, (f, l) in seen['alloc'][:1]:
+        n += 1
+        if linform(size) != want:
+            bad += 1
+            chk.add(Finding('C06.private-copy', f or unit, 'jwt_parse', 'allocation-size',
+                            'the private copy is allocated with %r bytes; strlen(token)+1 are needed (the scans rely on the terminator)' % (size,), line=l))
+    for name, args, (f, l) in seen['copy'][:1]:
+        n += 1
+        ok = vkey(args[1]) == vkey(tok) and isinstance(args[0], Ref) and 'jwt_malloc' in args[0].loc[1]
+        if name in ('memcpy', 'memmove', 'strncpy'):
+            ok = ok and linform(args[2]) == want
+        if not ok:
+            bad += 1
+            chk.add(Finding('C06.private-copy', f or unit, 'jwt_parse', 'copy-length',
+                            '%s(%r, %r%s): the copy must move exactly strlen(token)+1 bytes of the caller\'s token into the fresh buffer'
+                            % (name, args[0], args[1], ', %r' % (args[2],) if len(args) > 2 else ''), line=l))
+    chk.rule('C06.private-copy', 'jwt_parse: allocation size == copy length == strlen(token)+1, source is the token, destination the fresh buffer',
+             n, bad, floor=2)
+
+
 def check_rejection(chk, prog, env, model):
     """jwt_parse returns 0 only if header and payload decoded to JSON and alg is a known string"""
     unit = 'libjwt/jwt-verify.c'
@@ -349,6 +396,7 @@ def run(chk, prog, tier):
     from props import c11
     en, de = c11.check_tables(chk, prog)
     chk.guard('decoder byte decisions', c11.check_byte_decisions, chk, prog, model, len(de))
+    check_private_copy(chk, prog, env, model)
     check_rejection(chk, prog, env, model)
     eff = effects.Effects(prog)
     check_termination(chk, prog, eff, [eff.find('jwt_checker_verify', T.VARIANT_UNIT['checker'])])
